@@ -1,4 +1,5 @@
 """C04 — a successful Unpack returns only values that satisfy every declared validator."""
+import json
 from ..gens import *
 from .. import typegen as TG
 from .. import catalog as CAT
@@ -7,7 +8,7 @@ ID = "C04"
 LEAN_MODULE = "Ucfg.Props.C04"
 LEVEL_TEXT = "Per-constructor validation theorems over the typed Unpack model, lifted to whole targets: unpack_flat_valid (structs of primitive fields) and unpack_plain_valid / unpack_plain_list_valid / unpack_plain_map_valid (structs, pointers, slices, fixed-size arrays and maps nested to any depth, any tags except inline, any validators, any well-shaped pre-filled value and any configuration: a nil error implies recValidate reports nothing; one induction over the fuel with a claim per model function, results keep the shape of the type - the attempt exposed defect D43). For interface{} / inline / regexp / Config targets the lifted statement is PARTIAL: it is the Lean-evaluated oracle on the implementation's result over type-directed cases and a catalogue of named types with Validate/InitDefaults."
 CORRESPONDENCE = "Unpack.{unpack,mergeValue,reifyValue,reifyMapT,reifyStructT,sliceMerge,doArray,recValidate,runValidators} ~ (*Config).Unpack into reflect.StructOf targets"
-RULE = ("type generator (structs nested through pointers, slices, arrays, maps, interface{} and inline fields, depth <= 4, random config "
+RULE = ("Plus: values with validators held in interface{} fields, map entries and list elements of a pre-filled hand-written target (kind ifaceheld; the result is checked by reflection in the worker: after a nil error no reachable value violates its tag), and the path of the one injected fault named by the error - also in lists that reached their length by a later merge. Main stream: type generator (structs nested through pointers, slices, arrays, maps, interface{} and inline fields, depth <= 4, random config "
         "tags incl. rename/inline/ignore/append/prepend/replace, random validate tags incl. duration bounds) realised with "
         "reflect.StructOf, x a configuration mentioning a random subset of the fields with valid values or one value violating a "
         "validator / of the wrong kind, x a pre-filled target (zero, valid, or invalid at a random position). Oracle (Lean): when Unpack "
@@ -20,6 +21,39 @@ TRUSTED_BASE = ["Lean 4 kernel", "Model/Unpack.lean transcribes reify.go/validat
 ASSUMPTIONS = ["no user types with Validate()/InitDefaults()/Unpack() methods (reflect.StructOf cannot give them methods); the catalogue of "
                "named types with methods is exercised by kind 'catalog' only against recorded expectations",
                "reference-free configurations in the typed model (C03 covers primitives behind references)"]
+
+
+def ifaceheld_cases(irng, tier):
+    """values with validators held in interface{} fields, map entries and list elements of the pre-filled target (kind
+    ifaceheld, checked on the result by reflection in the worker): settings for other keys / elements, for the held values
+    themselves, nulls, nothing; structs and fixed-size arrays held by value and by pointer"""
+    for i in range(150 if tier == "quick" else 1500):
+        def held(bad):
+            r = irng.below(6)
+            if r == 0: return {"plain": U(3)}
+            if r == 1: return None
+            return {"max": (0 if bad else 2 + irng.below(5)), "ptr": irng.chance(0.4)}
+        nm = 1 + irng.below(3)
+        badk = irng.below(nm) if irng.chance(0.6) else None
+        m = {"k%d" % j: held(j == badk) for j in range(nm)}
+        nl = irng.below(3)
+        badl = irng.below(nl) if nl and irng.chance(0.4) else None
+        l = [held(j == badl) for j in range(nl)]
+        ih = held(irng.chance(0.2))
+        # the configuration: other keys of the map (values, nulls, objects), settings for some of the held values, or nothing
+        ms = []
+        for j in range(irng.below(3)):
+            k = irng.pick(["k%d" % (nm + j), "k%d" % irng.below(nm)])
+            if any(k == k2 for k2, _ in ms): continue
+            ms.append((k, irng.pick([None, None, U(5), S("x"), M([("max", U(4))]), M([("name", S("n"))])])))
+        top = []
+        if ms or irng.chance(0.3): top.append(("m", M(ms)))
+        if irng.chance(0.4): top.append(("l", A([irng.pick([None, U(1), M([("name", S("q"))])]) for _ in range(irng.below(3))])))
+        if irng.chance(0.3): top.append(("i", irng.pick([None, U(2), M([("name", S("z"))])])))
+        top.append(("n", U(1)))
+        uopts = [opt(irng.pick(["Append", "Prepend", "Replace"]))] if irng.chance(0.2) else []
+        yield {"k": "ifaceheld", "m": m, "l": l, "ih": ih, "from": M(top), "copts": [], "uopts": uopts, "_tag": "ifaceheld", "_nt": True,
+               "_sig": "ifaceheld|%s|%s|%d|%d" % (badk is not None, badl is not None, len(ms), len(top))}
 
 
 def gen(rng, tier):
@@ -48,7 +82,43 @@ def gen(rng, tier):
              "_sig": "%s|%s|%s|%s|%s" % (TG.type_sig(ty), mode, fault, "old" if old else "zero", ",".join(k for k, _ in cfg["m"]))}
         if valid is not None:
             c["validFrom"] = valid
+            if c["strictErr"] and not uopts:
+                # "... makes Unpack fail with an error naming that field": the one injected fault is the one reported, by its
+                # path - also when the list it sits in reached its length by a later merge
+                c["faultPath"] = ".".join(path)
+                if rng.chance(0.3):
+                    from . import c14
+                    how = c14.grow_by_merge(rng, c, cfg)
+                    if how:
+                        c["_tag"] += "+grown"
         yield c
+    # a validator fault inside a list element, the list having reached its length by a later merge (append / prepend / a
+    # longer list): the error names the element by the index it has in the merged configuration
+    grng = rng.fork("grown-lists")
+    from . import c14
+    made = 0
+    for _ in range(4000):
+        if made >= (120 if tier == "quick" else 1200):
+            break
+        ty = TG.rand_type(grng, 2 + grng.below(2), top=True)
+        if TG.has_inline_map(ty):
+            continue
+        valid = TG.config_for(grng, ty, 3, None, mention=1.0)
+        pts = [p for p in TG.fault_points(ty, valid) if p[1].startswith("validator") and any(seg.isdigit() for seg in p[0])]
+        if not pts:
+            continue
+        path, kind, repl = grng.pick(pts)
+        cfg = TG.replace_at(valid, path, repl)
+        c = {"k": "unpack", "ty": ty, "old": None, "from": cfg, "validFrom": valid, "copts": [], "uopts": [], "strictErr": True,
+             "faultPath": ".".join(path), "_tag": "unpack/validator-in-grown-list", "_nt": True,
+             "_sig": "grownlist|%s|%d|%s" % (kind, len(path), TG.type_sig(ty, 1))}
+        how = c14.grow_by_merge(grng, c, cfg)
+        if not how:
+            continue
+        c["_sig"] += "|" + how
+        made += 1
+        yield c
+    yield from ifaceheld_cases(rng.fork("ifaceheld"), tier)
     # pre-filled containers holding one element that violates a validator, under every list policy (tag and option): the
     # defaults are validated "just as if the values came from the configuration", wherever the policy leaves them
     prng = rng.fork("prefilled-invalid")
@@ -171,13 +241,32 @@ def gen(rng, tier):
 def normalize_pair(case, impl, model):
     if case.get("k") == "catalog":
         return CAT.normalize_pair(case, impl, model)
+    if case.get("k") == "ifaceheld":
+        return {"unmodelled": True}, {"unmodelled": True}     # decided by the oracle on the implementation's result
     return TG.normalize_unpack_pair(case, impl, model)
 
 
-oracle = CAT.oracle_c04
+def oracle(case, impl, model):
+    if case.get("k") == "ifaceheld":
+        if not isinstance(impl, dict):
+            return (False, "no result")
+        if "panic" in impl or "fatal" in impl:
+            return (False, "Unpack crashed: " + json.dumps(impl)[:200])
+        ok = impl.get("ok")
+        if isinstance(ok, dict) and ok.get("invalidReachable"):
+            return (False, "Unpack returned nil but the result holds a value that violates its validate tag at %s (held in an interface)"
+                    % ", ".join(ok["invalidReachable"][:4]))
+        return (True, "")
+    return CAT.oracle_c04(case, impl, model)
 
 
-fix_candidate = TG.fix_typed_candidate
+def fix_candidate(cand, base):
+    if cand.get("k") == "ifaceheld":
+        from .. import forest as FO
+        if not FO.wellformed_data(cand.get("from")) or not isinstance(cand.get("m"), dict) or not isinstance(cand.get("l"), list):
+            return None
+        return cand
+    return TG.fix_typed_candidate(cand, base)
 
 
 def check_facts(facts):
